@@ -205,6 +205,7 @@ func init() {
 				seen := map[string]bool{}
 				for _, d := range w.DecodeDatagrams() {
 					if d.Err != nil {
+						c.Violate("C16/wire/pattern-not-exhibited", fmt.Sprintf("datagram #%d emitted under the configured pattern cannot be decoded by the reference codec (%v): the traffic does not exhibit the configured low-entropy mode / rotation / lengths", d.Index, d.Err), rep)
 						continue
 					}
 					c2s := d.To == "10.8.0.1:8964"
@@ -222,6 +223,7 @@ func init() {
 				w.Net.Unlock()
 				for _, ds := range w.DecodeStreams() {
 					if ds.Err != nil {
+						c.Violate("C16/wire/pattern-not-exhibited", fmt.Sprintf("conn %d (client→server=%v) emitted under the configured pattern cannot be decoded by the reference codec (%v): the traffic does not exhibit the configured low-entropy mode / rotation / lengths", ds.ConnID, ds.ClientToServer, ds.Err), rep)
 						continue
 					}
 					for j, s := range ds.Segs {
